@@ -16,5 +16,12 @@ def add_obligations(chk, prop, tier, seed):
         eng = common.new_engine(sl_integrate.stk_contracts, prop)
         sl_integrate.install(eng)
         verify_contracts(eng, [c for c in sl_integrate.stk_contracts if prop in c.props and c.setup], chk)
+    if prop == "C07":
+        from contracts import sl_evaluate
+        eng = common.new_engine(sl_evaluate.contracts, prop)
+        arrays.install(eng)
+        sl_integrate.install(eng)
+        sl_evaluate.install(eng)
+        verify_contracts(eng, [c for c in sl_evaluate.contracts if prop in c.props and c.setup], chk)
     from vlib import smt
     smt.close_pool()
